@@ -200,7 +200,7 @@ def spec_cases(op, arg, out):
     if op == "adjust_line_length":
         return [("spec.adjust_ok", [arg[0], arg[1], arg[2], arg[3], out])]
     if op == "split_and_crop_lines":
-        return [("spec.sac_ok", [arg[0], arg[1], arg[2], arg[3], out])]
+        return [("spec.sac_ok", [arg[0], arg[1], arg[2], arg[3], arg[4], out])]
     if op == "set_shape":
         return [("spec.set_shape_ok", [arg[0], arg[1], arg[2], arg[3], out])]
     return []
